@@ -1639,7 +1639,7 @@ def check_C10(run, replay=None):
                 sv = iv if (iv == "Err" or (iv.startswith(kind + ":{I(" + code + ")"))) else "Err-or-" + kind + "(code " + code + ")"
         kc.append(c)
         f5 = c.split(" ")[5] if c.startswith("V ") and len(c.split(" ")) > 5 else ""
-        if f5 == "Null" or f5.startswith("P([") or f5 == "P(Nil[])":
+        if f5 == "Null" or f5.startswith("P([") or f5 == "P(Nil[])" or (c.startswith("X ") and ("Null" in mv or "P([" in mv)):
             # a nullable array written in place is a plain Go slice on both sides: null is the nil slice, a value is the slice (the value
             # comparison does not tell nil from empty — canon_dump — the WIRE comparison above does: null vs [])
             narr = lambda x: re.sub(r"P\((\[[^\[\]]*\])\)", r"\1", x.replace("P(Nil[])", "[]").replace("Null", "[]").replace("Nil[]", "[]"))
